@@ -250,6 +250,38 @@ func scripted(tw *hx.TraceWriter, rep *hx.Report, seed int64) int {
 	return n
 }
 
+// legacyRestake: a chain that lives on both sides of the codec (amino -> proto) upgrade height K = 9.
+// Before K there is no edit-stake, MaxApplications is not enforced, transfers do not exist and a matured
+// application keeps a record (Unstaked, 0 tokens); that legacy record stakes again after K.
+func legacyRestake(tw *hx.TraceWriter, rep *hx.Report, seed int64) int {
+	a := defaultCfg(seed)
+	a.codecAt, a.unstaking, a.maxApps = 9, 2, 2
+	a.apps = []chainsim.AppSpec{{Key: k4, Tokens: 2000000, Chains: c1}, {Key: k6, Tokens: 1500001, Chains: c12}}
+	sc := startScenario(tw, rep, "legacy-restake", a)
+	sc.block(1)                                                         // h1
+	sc.block(1)                                                         // h2
+	sc.block(1, sc.stake(k5, k5, c1, 1200000))                          // h3: a third application although MaxApplications = 2
+	sc.block(1, sc.stake(k5, k5, c12, 1300000), sc.unstake(k5, k5))     // h4: no edit-stake before K; begin unstaking (due 6)
+	sc.block(1, sc.transfer(k4, k7), sc.stake(k5, k5, c1, 1200000))     // h5: no transfers before K; unstaking: refused
+	sc.block(1)                                                         // h6: a5 matures, its record stays
+	if r, ok := sc.w.s.Project().App[sc.w.name(k5)]; ok && r.Status == 0 && r.Tokens == 0 {
+		rep.OpCounts["legacy-record-present"]++
+	}
+	sc.block(1, sc.stake(k8, k8, c1, 1000000), sc.unstake(k8, k8))      // h7: a8 stakes and leaves at once (due 9 = K)
+	sc.block(1, sc.unstake(k6, k6))                                     // h8: a6 is unstaking across K (due 10)
+	sc.block(1, sc.stake(k8, k8, c1, 1000000))                          // h9 = K: state conversion in BeginBlock; a8 still unstaking: refused; matures (deleted)
+	sc.block(1, sc.stake(k8, k8, c1, 1000000), sc.stake(k5, k5, c1, 1300000)) // h10: a6 matures; a8 fresh; then the set is full for a5
+	sc.block(1, sc.unstake(k8, k8))                                     // h11: a slot opens
+	sc.block(1, sc.stake(k5, k5, c1, 1300000))                          // h12: the legacy record stakes again: fresh-stake path
+	sc.block(1, sc.stake(k5, k5, c12, 1800000))                         // h13: edit-stake exists now
+	sc.block(1, sc.transfer(k5, k7), sc.transfer(k7, k5))               // h14: so do transfers
+	sc.block(1, sc.unstake(k5, k5))
+	sc.block(1)
+	sc.block(1) // a5 matures: the record is deleted now
+	sc.block(1, sc.stake(k5, k5, c1, 1000000))
+	return 1
+}
+
 // donation: the known finding - coins sent to the pool's address
 func donation(tw *hx.TraceWriter, rep *hx.Report, seed int64) int {
 	sc := startScenario(tw, rep, "donation", defaultCfg(seed))
@@ -399,6 +431,7 @@ func traceApps(out, mode string, n, blocks int) {
 		}
 	case "scripted":
 		rep.Behaviours += scripted(tw, rep, hx.Seed()*100)
+		rep.Behaviours += legacyRestake(tw, rep, hx.Seed()*100+50)
 	case "donation":
 		rep.Behaviours += donation(tw, rep, hx.Seed()*100)
 	default:
